@@ -52,7 +52,9 @@ func TestMain(m *testing.M) {
 
 var mats = pki.Pool(3)
 
-var junkEndpoints = []string{"", "https://%zz", "http://", "ftp://x", "http://[::1", "https://a b", "HTTP://x", "http://x:99999", "https://host\n", "http://127.0.0.1:1/path?q=1", "https://", "http://%", "http://127.0.0.1:2", "https://127.0.0.1:2"}
+var junkEndpoints = []string{"", "https://%zz", "http://", "ftp://x", "http://[::1", "https://a b", "HTTP://x", "http://x:99999", "https://host\n", "http://127.0.0.1:1/path?q=1", "https://", "http://%", "http://127.0.0.1:2", "https://127.0.0.1:2",
+	// unusual but well-formed endpoint URLs
+	"http://[fe80::1%25eth0]:6443", "http://[::1]:8080", "http://user:pw@127.0.0.1:3/base/", "http://Upper.Example:80", "http://host.example", "http://127.0.0.1:4/", "http://xn--bcher-kva.example:81"}
 var junkPEM = [][]byte{nil, []byte("garbage"), []byte("-----BEGIN CERTIFICATE-----\nAAAA\n-----END CERTIFICATE-----\n"), mats[0].CertPEM, mats[1].CertPEM, mats[0].KeyPEM, mats[1].KeyPEM, mats[0].CAPEM}
 var int32s = []int32{0, 1, -1, 2, 5, 100, -100, 2147483647, -2147483648}
 
@@ -602,7 +604,7 @@ var probes = func() []gen.Request {
 }()
 
 func TestPropValidationTotalAndSound(t *testing.T) {
-	sub := stats.NewSub("near-valid-objects", "rapid: a valid UpstreamCluster (shared generator: servers, policies, schemas incl. global members, serving TLS material, annotations) with 0-4 random field edits (junk / unparseable / mixed-scheme endpoints, any combination of the five flow-control members with values from {0,1,-1,2,5,100,-100,MaxInt32,MinInt32}, unknown subset endpoints / schema names, empty rules, junk strategies and log modes, client config and serving TLS material with garbage / mismatched PEM and bundles mixing good, unparseable and truncated blocks, https switch, invalid names, junk feature-gate annotations, global strategy without global member, schema with only a global member); oracle: validation never panics; an object refused on create is also refused as an update of an object that differs only in metadata; accepted => every apply stage succeeds; accepted => the must-reject predicate is empty; non-trivial = an edited object (accepted or rejected); distinct by FNV-64 of the object")
+	sub := stats.NewSub("near-valid-objects", "rapid: a valid UpstreamCluster (shared generator: servers, policies, schemas incl. global members, serving TLS material, annotations) with 0-4 random field edits (junk / unparseable / mixed-scheme endpoints and unusual well-formed ones: IPv6 with a zone, user info, a path, upper case, no port, a trailing slash, punycode, any combination of the five flow-control members with values from {0,1,-1,2,5,100,-100,MaxInt32,MinInt32}, unknown subset endpoints / schema names, empty rules, junk strategies and log modes, client config and serving TLS material with garbage / mismatched PEM and bundles mixing good, unparseable and truncated blocks, https switch, invalid names, junk feature-gate annotations, global strategy without global member, schema with only a global member); oracle: validation never panics; an object refused on create is also refused as an update of an object that differs only in metadata; accepted => every apply stage succeeds; accepted => the must-reject predicate is empty; non-trivial = an edited object (accepted or rejected); distinct by FNV-64 of the object")
 	remote.VerifSetWaitAcquireTimeout(1e6)
 	var prevAccepted *proxyv1alpha1.UpstreamCluster
 	stats.Check(t, stats.N(16000, 40000), func(t *rapid.T) {
